@@ -113,6 +113,34 @@ func foreignLayout(r *Run, real bool) {
 			}
 		}
 		sort.Ints(exps)
+		if t.Bool(1, 6, "exponents-a-divisor-apart") {
+			// the two lowest exponents differ by a divisor d of 65535 (the
+			// order of the field's multiplicative group), the others lie
+			// anywhere above: for slices whose constants' logarithms differ
+			// by a multiple of 65535/d, the leading 2x2 minor of the decode
+			// matrix vanishes while the whole matrix need not be singular -
+			// the elimination has to exchange rows (exponents 0,1,2,... never
+			// make it do that)
+			d := []int{21845, 21845, 13107, 13107, 4369, 3855, 1285, 771, 257, 255, 85, 51}[t.Draw(12, "divisor")]
+			e0 := t.Draw(65534-d, "e0")
+			if t.Bool(1, 2, "e0-small") {
+				e0 = t.Draw(12, "e0-small-value")
+			}
+			exps = []int{e0, e0 + d}
+			seen := map[int]bool{e0: true, e0 + d: true}
+			for k := 1 + t.Draw(4, "more-exponents"); k > 0; k-- {
+				if e0+d+1 >= 65535 {
+					break
+				}
+				e := e0 + d + 1 + t.Draw(65535-(e0+d+1), "exp-above")
+				if !seen[e] {
+					seen[e] = true
+					exps = append(exps, e)
+				}
+			}
+			sort.Ints(exps)
+			r.Probe("exponents-a-divisor-of-65535-apart")
+		}
 	}
 	if nonContiguous(exps) {
 		r.Probe("non-contiguous-exponents")
